@@ -338,6 +338,7 @@ func init() {
 			}
 		} else {
 			fails = append(fails, methodFails("C20", "Destination", &d)...)
+			fails = append(fails, destPolicyFails("ReadDestination (value returned with an error)", d)...)
 		}
 		return out, fails
 	})
@@ -398,6 +399,11 @@ func init() {
 			}
 		} else if r != nil {
 			fails = append(fails, methodFails("C20", "RouterIdentity", r)...)
+			if r.KeysAndCert != nil && r.KeyCertificate != nil {
+				if s, c := r.KeyCertificate.SigningPublicKeyType(), r.KeyCertificate.PublicKeyType(); !ridAllowedSpec(s, c) {
+					fails = append(fails, fail("C09", "policy:ReadRouterIdentity (value returned with an error)", "the RouterIdentity returned with an error has prohibited types (%d,%d)", s, c))
+				}
+			}
 		}
 		return out, fails
 	})
